@@ -16,9 +16,10 @@ PY_CORE = "PyLibCore PySrcCore PySrcCoreFacts"                    # succession_d
 PY_CORE2 = PY_CORE + " PyLibCore2 PySrcCore2 PySrcCore2Facts PySrcInitFacts"    # succession_diagram.py: skip_to_minimal, skip_remaining, depth, reclaim_node_data
 PY_MIN = "PyLib PyLibSd PyLibCore PyLibSd2 PySrcSdBase PySrcSdMin PySrcSdMinFacts"   # _sd_algorithms/expand_minimal_spaces.py
 PY_PERC = "PyLib PyLibSd PyLibPerc PySrcPerc PySrcPercFacts PyLibDrivers PySrcDrivers PySrcDriversFacts"       # space_utils.percolate_space_strict, percolation_conflicts
+PY_SCC = "PyLib PyLibSd PyLibCore PyLibSd2 PyLibScc PySrcSdBase PySrcSdScc PySrcSdSccFacts"     # expand_source_SCCs.attach_scc_subdiagram
 PY_CONTROL = "PyLib PyLibSd PyLibPerc PyLibCore PyLibControl PySrcControl PySrcControlFacts PySrcFindDriversFacts PySrcControlCorollaries"    # control.find_drivers, drivers_of_succession
 PY_ASEEDS = PY_MIN + " Candidates Blocks ASeeds PySrcSdASeeds PySrcSdASeedsFacts"     # _sd_algorithms/expand_attractor_seeds.py
-EXTRA_IMPORTS = {"C02": PY_SD + " " + PY_CORE2 + " PySrcEndToEnd", "C03": PY_SD + " " + PY_ASEEDS + " PySrcComplFacts", "C04": PY_SD + " " + PY_CORE, "C05": PY_CORE2 + " " + PY_MIN, "C13": PY_SD + " " + PY_TARGET + " " + PY_ASEEDS + " PySrcTermFacts", "C14": PY_CORE2, "C15": PY_SD + " " + PY_TARGET + " " + PY_ASEEDS, "C16": "PyLib PyLibPickle PySrcPickle PySrcPickleFacts " + PY_CORE2,
+EXTRA_IMPORTS = {"C02": PY_SD + " " + PY_CORE2 + " PySrcEndToEnd", "C03": PY_SD + " " + PY_ASEEDS + " PySrcComplFacts", "C04": PY_SD + " " + PY_CORE, "C05": PY_CORE2 + " " + PY_MIN, "C13": PY_SD + " " + PY_TARGET + " " + PY_ASEEDS + " PySrcTermFacts", "C14": PY_CORE2 + " " + PY_SCC, "C15": PY_SD + " " + PY_TARGET + " " + PY_ASEEDS, "C16": "PyLib PyLibPickle PySrcPickle PySrcPickleFacts " + PY_CORE2,
                  "C06": PY_SPACE + " " + PY_TARGET + " PySrcEndToEndControl " + PY_CONTROL, "C07": PY_CONTROL, "C10": PY_PLACE, "C11": PY_PERC, "C19": PY_SD + " " + PY_CORE, "C20": PY_KEY + " " + PY_CORE2 + " PyLibSd PyLibPerc PySrcIso PySrcIsoFacts"}
 
 def imports_for(pid):
@@ -438,7 +439,10 @@ SPEC["C14"] = dict(title="Cached attractor data is never stale", comment="""
 Model: every cache field carries a ghost tag = the successor motif list and skip flag it was computed
 against (Diagram.cur_tag); CacheOK says every set field carries the node's CURRENT tag.  The correspondence
 run compares which fields are set after every operation and judges the cached values themselves.""",
- theorems=[("source_reclaim_node_data", "py_reclaim_node_data_spec", "translator tie: reclaim_node_data as generated from the source = Diagram.reclaim"),
+ theorems=[("source_attach_scc_subdiagram", "py_attach_scc_subdiagram_spec_senv", "translator tie: the function GENERATED from the current text of expand_source_SCCs.attach_scc_subdiagram (PySrcSdScc.v: node copying, cache discarding for stubs and skip nodes, candidate queries, edge copying) does exactly what the model's SCC.attach_scc does in the situation in which expand_source_SCCs calls it (SCCTerm.senv / SI / good_at)"),
+           ("source_attach_scc_subdiagram_no_assert", "py_attach_scc_subdiagram_spec_noassert", "... and for every sub-diagram satisfying attach_pre whenever the model does not report the assertion"),
+           ("source_attach_scc_subdiagram_assert_case", "py_attach_scc_subdiagram_spec_counterexample", "the one discrepancy: when the assertion main_node_id != main_succ_id fires after edges were copied, the text raises with those edges in the diagram, the model returns the diagram before the edge loop (cannot happen in expand_source_SCCs: SCCTerm.attach_scc_SI)"),
+           ("source_reclaim_node_data", "py_reclaim_node_data_spec", "translator tie: reclaim_node_data as generated from the source = Diagram.reclaim"),
            ("source_expand_one_node", "py_expand_one_node_spec", "translator tie: the function GENERATED from the current text of SuccessionDiagram._expand_one_node (PySrcCore.v; embedding PyLibCore.v) computes Diagram.expand_one for every diagram satisfying the class invariant CoreInv, every oracle for the percolated-net cache, and preserves CoreInv"),
            ("step_CacheOK", "step_CacheOK", None), ("run_CacheOK", "run_CacheOK", None), ("expand_one_CacheOK", "expand_one_CacheOK", None),
            ("q_cands_CacheOK", "q_cands_CacheOK", None), ("q_seeds_CacheOK", "q_seeds_CacheOK", None), ("q_sets_CacheOK", "q_sets_CacheOK", None),
